@@ -138,6 +138,9 @@ def evaluate(ctx, res, progs, vio_name, tag, sig_prefix, what):
     pid = ctx['pid']
     good = []
     for p in progs:
+        if p.get('skipped'):
+            res.count('programs_skipped_after_gross_misbehaviour')
+            continue
         res.evaluations += 1
         stats(res, p)
         bad = [e for ob in p['obs'] for c in ob for e in c['trace'] if ev_term(e) is None]
